@@ -176,6 +176,8 @@ def run_kani_group(prop, grp, tier, obligations, undecided, failures, checker_cm
             f["new"] = [n for n in f["obligations"] if n not in [k["obligation"] for k in f["known"]]]
             if not f["new"]:
                 continue
+            if any(g.get("playback") for g in failures if g.get("group") is grp):
+                continue   # one executable counterexample per group is enough
             pb = vlib.kani_playback(ws, crate, f["harness"]["name"], features=features,
                                     solver=grp.get("solver"), modpath=grp.get("modpath"),
                                     run_native=f["harness"].get("replayable", True), c_lib=grp.get("c_lib"))
@@ -244,7 +246,57 @@ def decide(prop, tier, seed):
     violations = 0
     lines = []
     known_all = vlib.load_known_findings()
+    # one executable counterexample per Kani group: fold the other failing harnesses of the group
+    # into the failure that carries it
+    for f in list(failures):
+        if f["group"].get("kind") == "kani" and not f.get("playback") and f.get("new"):
+            lead = next((g for g in failures if g is not f and g.get("group") is f["group"] and g.get("playback")), None)
+            if lead is not None:
+                lead["new"] = lead["new"] + [n for n in f["new"] if n not in lead["new"]]
+                lead["obligations"] = sorted(set(lead["obligations"]) | set(f["obligations"]))
+                lead.setdefault("also_failing_harnesses", []).append(f["harness"]["name"])
+                f["new"] = []
     for f in failures:
+        if f.get("out_of_reach"):
+            # verifier could not process the changed code: bounded native evaluation as stand-in
+            pair = f["group"]["pair"]
+            hit, sr = [], None
+            sws = Workspace(prop + "-search")
+            try:
+                weave_units(sws, pair["units"])
+                sr = vlib.native_search(sws, pair["crate"], pair["test"], features=pair.get("features"), targets=(), seed=seed)
+                checker_cmds.append(sr["cmd"])
+                hit = [n for n in f["candidates"] if n in sr["found"]]
+            except Undecided:
+                pass
+            finally:
+                sws.cleanup()
+            ev_extra.setdefault("paired_search", []).append(
+                {"for": "verifier could not process the function", "engine": "native evaluation of the contract clauses (bounded stand-in)",
+                 "evaluations": sr and sr["evaluations"], "found_failing_input": bool(hit)})
+            if not hit:
+                undecided.append(f["undecided_entry"])
+                continue
+            f["obligations"] = hit
+            f["search_hit"] = hit[0]
+            f["search"] = {"pair": pair, "input": sr["found"][hit[0]], "found": sr["found"], "evaluations": sr["evaluations"],
+                           "output": sr["output"][-1500:]}
+            f["decided_by_bounded_stand_in"] = True
+            for o in obligations:
+                if o["name"] in hit:
+                    o["result"] = "failed"
+                    o["reason"] = "failing input found by the bounded native evaluation; the verifier could not process the changed function: " + f["verus"]["unprocessable"][:200]
+            known = [k for k in known_all if k["property"] == prop and k["obligation"] in hit]
+            f["known"] = known
+            f["new"] = [n for n in hit if n not in [k["obligation"] for k in known]]
+            for k in known:
+                lines.append(f"KNOWN-FINDING: property={prop} {k['obligation']} {k['what']}")
+            if f["new"]:
+                path, doc = write_replay(prop, f)
+                violations += 1
+                lines.append(f"VIOLATION property={prop} replay={path}")
+                lines.append(f"  failed obligations: {', '.join(f['new'])} (bounded native evaluation; verifier could not process the changed function)")
+            continue
         if "known" not in f:  # verus / cbmc groups: known-finding matching happens here
             f["known"] = [k for k in known_all if k["property"] == prop and k["obligation"] in f["obligations"]]
             f["new"] = [n for n in f["obligations"] if n not in [k["obligation"] for k in f["known"]]]
